@@ -280,6 +280,18 @@ def _t_opassign(line, arg=None):
     return re.sub(r'^(\s*)(\w+) /= (.+);\s*$', r'\1\2 = \2 / \3;', line)
 
 
+def _t_mulassign(line, arg=None):
+    """`x *= y;` -> `x = x * y;` (compound assignment on bnum integers: `MulAssign` is defined as `Mul`)"""
+    return re.sub(r'^(\s*)(\w+) \*= (.+);\s*$', r'\1\2 = \2 * \3;', line)
+
+
+def _t_one_const(line, arg=None):
+    """`U1024::ONE` / `Uint::ONE` (not shifted) -> `ol_u1024_one()` / `ol_uint_one()` (associated constants of foreign
+    types are unsupported)"""
+    line = re.sub(r'\bU1024::ONE\b(?! <<)', 'ol_u1024_one()', line)
+    return re.sub(r'\bUint::ONE\b(?! <<)', 'ol_uint_one()', line)
+
+
 def _t_one_shl(line, arg=None):
     """`Uint::ONE << (E)` -> `ol_uint_one_shl(E)` (outlined: associated constants of foreign types are unsupported)"""
     return re.sub(r'Uint::ONE << \(([^()]*)\)', r'ol_uint_one_shl(\1)', line)
@@ -343,7 +355,18 @@ def _t_try(line, arg=None):
     return re.sub(r'\b(\w+)\.try_into\(\) == Ok\(([^()]+)\)', r'ol_uint_eq_u64(\1, \2)', line)
 
 
-TRANSFORMERS = [('Rref', _t_rref), ('Rtry', _t_try), ('Rverb', _t_verb), ('Rvec', _t_rvec), ('Rone', _t_one_shl), ('Rdiv', _t_opassign), ('R10', _t_r10), ('Rit', _t_forit), ('Rfor', _t_forname), ('R8', _t_r8), ('Rsort', _t_sort), ('R7', _t_r7), ('R1', _t_r1), ('R1u', _t_unsafe), ('ret', _t_ret), ('brace', _t_brace)]
+TRANSFORMERS = [('Rmul', _t_mulassign), ('Rconst', _t_one_const), ('Rref', _t_rref), ('Rtry', _t_try), ('Rverb', _t_verb), ('Rvec', _t_rvec), ('Rone', _t_one_shl), ('Rdiv', _t_opassign), ('R10', _t_r10), ('Rit', _t_forit), ('Rfor', _t_forname), ('R8', _t_r8), ('Rsort', _t_sort), ('R7', _t_r7), ('R1', _t_r1), ('R1u', _t_unsafe), ('ret', _t_ret), ('brace', _t_brace)]
+
+
+# line-local normalisations that need no accompanying ghost text: applied to current lines that have no pinned counterpart
+FREE = ('R1', 'R1u', 'Rconst', 'Rmul', 'Rdiv', 'Rverb', 'Rtry', 'Rone', 'Rsort', 'R8')
+
+
+def free_normalise(line):
+    for nm, fn in TRANSFORMERS:
+        if nm in FREE:
+            line = fn(line, None)
+    return line
 
 
 _INFER_CACHE = {}
@@ -403,6 +426,10 @@ def key(line):
     md = re.match(r'^(\w+) = (\w+) / (.+);$', s)
     if md and md.group(1) == md.group(2):
         return '%s /= %s;' % (md.group(1), md.group(3))
+    s = s.replace('ol_u1024_one()', 'U1024::ONE').replace('ol_uint_one()', 'Uint::ONE')
+    md = re.match(r'^(\w+) = (\w+) \* (.+);$', s)
+    if md and md.group(1) == md.group(2):
+        return '%s *= %s;' % (md.group(1), md.group(3))
     m10 = R10_OUT.match(s)
     if m10:
         return 'for %s in %s..%s' % (m10.group(1), m10.group(2), m10.group(3))
@@ -571,7 +598,7 @@ class Script:
                 if norm(cur_line) == norm(P[pi]):
                     out.append(self.A[self.exec_of[pi]])
                 else:
-                    out.append(_t_unsafe(_t_r1(cur_line)))
+                    out.append(free_normalise(cur_line))
             src_trace.append(cj)
             out.extend(self.tail_after.get(pi, []))
 
@@ -599,7 +626,7 @@ class Script:
                 if i1 < i2:
                     out.extend(self.ghost_before.get(i1, []))
                 for cj in range(j1, j2):
-                    out.append(_t_unsafe(_t_r1(cur_lines[cj])))
+                    out.append(free_normalise(cur_lines[cj]))
                     src_trace.append(cj)
                 # ghost text interior to a restructured block belonged to code that no longer exists: dropped
         out.extend(self.ghost_end)
